@@ -582,10 +582,11 @@ Proof.
   cbn [snd] in Ho. exists w3, o3. split; [reflexivity | exact Ho].
 Qed.
 
-(* ---------------------------------------------------------------- finding: Create URR for an id the session already has *)
+(* ---------------------------------------------------------------- Create URR for an id the session already has *)
 
-(* URR 7 reports with UR-SEQN 0; a second Create URR 7 is rejected by the driver (the rule exists), but the
-   bookkeeping was already replaced (SEQN 0); the next report of the SAME, still running, URR carries UR-SEQN 0 again *)
+(* URR 7 reports with UR-SEQN 0; a second Create URR 7 is rejected by the driver (the rule exists); since fix
+   "Create URR for a held id keeps its UR-SEQN" the bookkeeping is put back, and the next report of the SAME, still
+   running, URR carries UR-SEQN 1 (before the fix it carried 0 again) *)
 Definition recreate_urr_history : list event :=
   [EvRecv 0 1 (MAssocSetup (IeVal 0) []) (mkEnv [] []);
    EvRecv 0 2 (MEst (IeVal 0) (IeVal 10)
@@ -599,12 +600,12 @@ Definition recreate_urr_history : list event :=
 Definition usar_seqns (o : list out) : list (N * N) :=
   flat_map (fun x => match x with OSend _ (PReportUSAR _ _ ies) _ => map (fun ie => (ur_urr ie, ur_seqn ie)) ies | _ => [] end) o.
 
-Example create_urr_existing_id_refuted :
+Example create_urr_existing_id_keeps_counter :
   match run (init 0 1) recreate_urr_history with
   | Ok (_, os) =>
       usar_seqns (nth 2 os []) = [(7, 0)] /\
       nth 3 os [] = [ODrv DCreate KURR 1 7 false; OSend 0 (PModRsp 3 10 CauseAccepted []) false] /\
-      usar_seqns (nth 4 os []) = [(7, 0)]
+      usar_seqns (nth 4 os []) = [(7, 1)]
   | Fault _ => False
   end.
 Proof. vm_compute. repeat split; reflexivity. Qed.
@@ -621,5 +622,20 @@ Proof.
   - destruct (handle_mod_emits w peer seq seid o e s c rs HI HL Ec) as [w' [o3 [E [L _]]]].
     exists w', (c_out c ++ o3). split; [exact E|]. right. eexists. split; [exact L|].
     apply emit_RefInv. apply (run_categories_RefInv e o mod_order (mkCtx s (w_dp w) []) (c, rs) Ec HR mod_order_once Hwf).
+  - exists w, []. split; [|left; reflexivity]. unfold handle_mod. apply lookup_found in HL. rewrite HL, Ec. reflexivity.
+Qed.
+
+(* the same without any hypothesis on the Create PDR ids of the request (they may name PDRs the session holds, or repeat):
+   room below 65536 PDRs is all that is needed *)
+Theorem handle_mod_RefInv_room w peer seq seid o e s :
+  WInv w -> live w seid s -> RefInv s -> cpdr_room o s ->
+  exists w' out, handle_mod w peer seq seid IeAbsent o e = Ok (w', out) /\
+    (w' = w \/ exists s', live w' seid s' /\ RefInv s').
+Proof.
+  intros HI HL HR Hwf.
+  destruct (run_categories e o mod_order (mkCtx s (w_dp w) [])) as [[c rs]|] eqn:Ec.
+  - destruct (handle_mod_emits w peer seq seid o e s c rs HI HL Ec) as [w' [o3 [E [L _]]]].
+    exists w', (c_out c ++ o3). split; [exact E|]. right. eexists. split; [exact L|].
+    apply emit_RefInv. apply (run_categories_RefInv_room e o mod_order (mkCtx s (w_dp w) []) (c, rs) Ec HR mod_order_once Hwf).
   - exists w, []. split; [|left; reflexivity]. unfold handle_mod. apply lookup_found in HL. rewrite HL, Ec. reflexivity.
 Qed.
